@@ -1,6 +1,6 @@
 (* C16 — persistence storages: generated annotation names.  Only statements here; proofs in Proofs/. *)
 From Coq Require Import ZArith NArith List String Bool Ascii.
-From KV Require Import Base.Json Model.Keys Proofs.Keys.
+From KV Require Import Base.Json Base.Dicts Model.Keys Model.Storage Proofs.Keys Proofs.JsonMerge Proofs.Storage.
 Import ListNotations.
 
 (* make_suffix is always '-' plus six characters of the base64 alphabet: for EVERY digest *)
@@ -56,3 +56,24 @@ Theorem C16_v1_len_refuted :
                    (63 < List.length (v1_name const_dg prefix k))%nat.
 Proof. exact v1_key_length_refuted. Qed.
 Print Assumptions C16_v1_len_refuted.
+
+(* Round trip through an RFC 7386 server, annotation progress storage: for EVERY hash function, prefix, v1/v2
+   switch, verbosity, handler id, record and body, what is stored is read back from the patched object
+   (nulls dropped unless verbose, exactly as the code filters them). *)
+Theorem C16_roundtrip_annotations : forall dg prefix v1 verbose tk key record body patch,
+  pstore dg (PAnn prefix v1 verbose tk) key record body (JObj []) = Ok patch ->
+  pfetch dg (PAnn prefix v1 verbose tk) key (merge body patch)
+  = Ok (Some (JObj (if verbose then record else drop_nulls record))).
+Proof. exact ann_roundtrip. Qed.
+Print Assumptions C16_roundtrip_annotations.
+
+(* Isolation: storing a record leaves every annotation that is neither one of its own keys nor the marker, and
+   every top-level field other than metadata, exactly as it was. *)
+Theorem C16_isolation_annotations : forall dg prefix v1 verbose tk key record body patch k',
+  pstore dg (PAnn prefix v1 verbose tk) key record body (JObj []) = Ok patch ->
+  ~ In k' (full_keys dg prefix v1 body key) -> k' <> (prefix ++ "/" ++ marker_name)%string ->
+  resolve (merge body patch) (ann_path k')
+  = match resolve body ["metadata"; "annotations"]%string with Some (JObj a) => lookup k' a | _ => None end
+  /\ (forall f, f <> "metadata"%string -> lookup f (obj_of (merge body patch)) = lookup f (obj_of body)).
+Proof. exact ann_store_isolated. Qed.
+Print Assumptions C16_isolation_annotations.
